@@ -42,6 +42,9 @@ type Node struct {
 	Attrs []Attr   `json:"attrs,omitempty"`
 	// Domain is the operator-set domain of the node ("" = ai.onnx)
 	Domain string `json:"domain,omitempty"`
+	// Name overrides the generated node name n<i>; NoName leaves the node nameless.
+	Name   string `json:"name,omitempty"`
+	NoName bool   `json:"noname,omitempty"`
 }
 
 // Init is an initializer (or a tensor-valued attribute): a value and how it is encoded.
@@ -199,6 +202,12 @@ func (m *Model) Proto() *onnx.ModelProto {
 	g := &onnx.GraphProto{Name: "g"}
 	for i, n := range m.Nodes {
 		np := &onnx.NodeProto{OpType: n.Op, Name: fmt.Sprintf("n%d", i), Domain: n.Domain}
+		if n.Name != "" {
+			np.Name = n.Name
+		}
+		if n.NoName {
+			np.Name = ""
+		}
 		np.Input = append([]string{}, n.In...)
 		np.Output = append([]string{}, n.Out...)
 		for _, a := range n.Attrs {
